@@ -4,50 +4,64 @@
 //@ end
 
 // C18 — rule evaluation part. Oracles are written from the property statement and DDS Security
-// 1.1 section 9.4.1.3 (permissions document) / 9.4.1.2.7 (governance), not from the code.
+// 1.1 sections 9.4.1.3 (permissions document), 9.4.1.2.7 (governance) and 9.4.3 (check_* tables),
+// not from the code.
 //
 // File-name pattern matching itself (`glob::Pattern::matches`) is NOT under contract: it is
 // replaced (kani::stub) by an arbitrary but functional predicate — a nondeterministic truth table
-// indexed by (pattern text, candidate text) — so every claim below holds for every possible
-// pattern semantics, in particular for the one of the `glob` crate.
+// indexed by (which pattern object, candidate text) — so every claim below holds for every
+// possible pattern semantics, in particular for the one of the `glob` crate. (Indexing by pattern
+// object is more general than indexing by pattern text: any text-based semantics is one of the
+// tables.)
 #[cfg(kani)]
 pub(crate) mod verif_c18 {
-  use chrono::TimeZone;
-
   use super::*;
 
   // ---- the stubbed pattern predicate ---------------------------------------------------------
-  // patterns are the one-letter texts "a".."d" (ids 0..3); candidate texts are "" (id 0) and the
-  // one-letter texts "A".."C" (ids 1..3). What a pattern "means" is given by the table only.
-  pub const NPAT: usize = 4;
+  // Patterns are `Pattern::default()` objects (no heap), told apart by where they are stored;
+  // candidate texts are "" (id 0) and the one-letter texts "A".."C" (ids 1..3).
+  pub const MAXP: usize = 24;
   pub const NSTR: usize = 4;
-  pub static mut GLOB_TABLE: [[bool; NSTR]; NPAT] = [[false; NSTR]; NPAT];
+  pub static mut PAT_REG: [*const Pattern; MAXP] = [core::ptr::null(); MAXP];
+  pub static mut PAT_N: usize = 0;
+  pub static mut GLOB_BITS: u128 = 0; // bit k*NSTR+s: pattern k matches text s
   pub const STRS: [&str; NSTR] = ["", "A", "B", "C"];
-  const PATS: [&str; NPAT] = ["a", "b", "c", "d"];
 
+  pub fn register(ps: &[Pattern]) {
+    let mut k = 0;
+    while k < ps.len() {
+      unsafe {
+        assert!(PAT_N < MAXP);
+        PAT_REG[PAT_N] = &ps[k] as *const Pattern;
+        PAT_N += 1;
+      }
+      k += 1;
+    }
+  }
+  macro_rules! find_id {
+    ($a:expr; $($k:literal)*) => { $( if unsafe { PAT_REG[$k] } == $a { return $k; } )* };
+  }
   fn pat_id(p: &Pattern) -> usize {
-    let b = p.as_str().as_bytes();
-    (b[0] - b'a') as usize
+    let a = p as *const Pattern;
+    find_id!(a; 0 1 2 3 4 5 6 7 8 9 10 11 12 13 14 15 16 17 18 19 20 21 22 23);
+    panic!("pattern not registered with the stub")
   }
   fn str_id(s: &str) -> usize {
     let b = s.as_bytes();
     if b.is_empty() { 0 } else { (b[0] - b'A') as usize + 1 }
   }
   pub fn glob_stub(p: &Pattern, s: &str) -> bool {
-    unsafe { GLOB_TABLE[pat_id(p)][str_id(s)] }
+    let bit = pat_id(p) * NSTR + str_id(s);
+    unsafe { (GLOB_BITS >> bit) & 1 == 1 }
   }
   pub fn any_glob_table() {
-    unsafe { GLOB_TABLE = kani::any(); }
-  }
-  pub fn any_pattern() -> Pattern {
-    let k: usize = kani::any();
-    kani::assume(k < NPAT);
-    Pattern::new(PATS[k]).unwrap()
+    unsafe { GLOB_BITS = kani::any(); }
   }
   pub fn any_str() -> &'static str {
-    let k: usize = kani::any();
-    kani::assume(k < NSTR);
-    STRS[k]
+    match kani::any::<u8>() % 4 { 0 => "", 1 => "A", 2 => "B", _ => "C" }
+  }
+  pub fn any_name() -> &'static str { // a topic name: not empty
+    match kani::any::<u8>() % 3 { 0 => "A", 1 => "B", _ => "C" }
   }
 
   // ---- oracles ---------------------------------------------------------------------------------
@@ -61,12 +75,12 @@ pub(crate) mod verif_c18 {
     };
     lo <= i as u32 && i as u32 <= hi
   }
-  fn o_domains(ds: &[DomainIds], i: u16) -> bool {
+  pub fn o_domains(ds: &[DomainIds], i: u16) -> bool {
     let mut k = 0;
     while k < ds.len() { if o_domain_ids(&ds[k], i) { return true; } k += 1; }
     false
   }
-  fn o_any_pattern(ps: &[Pattern], s: &str) -> bool {
+  pub fn o_any_pattern(ps: &[Pattern], s: &str) -> bool {
     let mut k = 0;
     while k < ps.len() { if glob_stub(&ps[k], s) { return true; } k += 1; }
     false
@@ -98,7 +112,7 @@ pub(crate) mod verif_c18 {
     }
     true
   }
-  fn o_criteria<'r>(r: &'r Rule, a: Action) -> &'r [Criterion] {
+  fn o_criteria(r: &Rule, a: Action) -> &[Criterion] {
     match a { Action::Publish => &r.publish, Action::Subscribe => &r.subscribe, Action::Relay => &r.relay }
   }
   // a rule applies when one of its domain entries covers the domain and one of its criteria of
@@ -138,24 +152,38 @@ pub(crate) mod verif_c18 {
       _ => DomainIds::Max(kani::any()),
     }
   }
-  // a vector of symbolic length lo..=hi (hi <= 2) built without reallocation
+  // a vector of symbolic length lo..=hi (hi <= 3) built without reallocation
   pub fn any_vec<T>(lo: usize, hi: usize, mut f: impl FnMut() -> T) -> Vec<T> {
     let n: usize = kani::any();
-    kani::assume(lo <= n && n <= hi);
-    match n { 0 => Vec::new(), 1 => vec![f()], _ => vec![f(), f()] }
+    kani::assume(lo <= n && n <= hi && n <= 3);
+    match n { 0 => Vec::new(), 1 => vec![f()], 2 => vec![f(), f()], _ => vec![f(), f(), f()] }
   }
   const TAGS: [(&str, &str); 3] = [("n", "v"), ("n", "w"), ("m", "v")];
   pub fn any_tag() -> (&'static str, &'static str) {
-    let k: usize = kani::any();
-    kani::assume(k < TAGS.len());
-    TAGS[k]
+    match kani::any::<u8>() % 3 { 0 => TAGS[0], 1 => TAGS[1], _ => TAGS[2] }
   }
   pub fn any_criterion(max_topics: usize, max_parts: usize, max_tags: usize) -> Criterion {
     Criterion {
-      topics: any_vec(1, max_topics, any_pattern), // documented invariant: not empty
-      partitions: any_vec(0, max_parts, any_pattern),
+      topics: any_vec(1, max_topics, Pattern::default), // documented invariant: not empty
+      partitions: any_vec(0, max_parts, Pattern::default),
       data_tags: any_vec(0, max_tags, || { let (n, v) = any_tag(); DataTag::new(n, v) }),
     }
+  }
+  pub fn register_criteria(cs: &[Criterion]) {
+    let mut k = 0;
+    while k < cs.len() { register(&cs[k].topics); register(&cs[k].partitions); k += 1; }
+  }
+  pub fn any_rule(max_domains: usize, max_criteria: usize, max_parts: usize) -> Rule {
+    Rule {
+      verdict: any_verdict(),
+      domains: any_vec(1, max_domains, any_domain_ids), // documented invariant: not empty
+      publish: any_vec(0, max_criteria, || any_criterion(1, max_parts, 0)),
+      subscribe: any_vec(0, max_criteria, || any_criterion(1, max_parts, 0)),
+      relay: any_vec(0, max_criteria, || any_criterion(1, max_parts, 0)),
+    }
+  }
+  pub fn register_rule(r: &Rule) {
+    register_criteria(&r.publish); register_criteria(&r.subscribe); register_criteria(&r.relay);
   }
 
   // ---- c18.domain_ids: complete ------------------------------------------------------------------
@@ -169,34 +197,141 @@ pub(crate) mod verif_c18 {
 
   // ---- c18.criterion: bounded ---------------------------------------------------------------------
   // explicit partitions on both sides (the entity names 1..2 partitions, the criterion 1..2
-  // partition expressions)
+  // partition expressions); <= 2 topic expressions, <= 2 data tags on each side
   #[kani::proof]
   #[kani::stub(glob::Pattern::matches, glob_stub)]
-  #[kani::unwind(6)]
+  #[kani::unwind(4)]
   fn c18_criterion() {
     any_glob_table();
     let c = any_criterion(2, 2, 2);
-    let topic = any_str();
-    let parts: Vec<&str> = any_vec(0, 2, any_str);
+    register(&c.topics);
+    register(&c.partitions);
+    let topic = any_name();
+    let parts: Vec<&str> = any_vec(1, 2, any_str);
     let tags: Vec<(&str, &str)> = any_vec(0, 2, any_tag);
-    kani::assume(!parts.is_empty() && !c.partitions.is_empty());
+    kani::assume(!c.partitions.is_empty());
     let got = c.is_applicable(topic, parts.iter(), tags.iter());
     assert!(got == o_criterion(&c, topic, &parts, &tags));
+    core::mem::forget((c, parts, tags));
   }
 
   // the default ("") partition: the entity names no partition and/or the criterion has no
   // partitions section
   #[kani::proof]
   #[kani::stub(glob::Pattern::matches, glob_stub)]
-  #[kani::unwind(6)]
+  #[kani::unwind(4)]
   fn c18_criterion_default_partition() {
     any_glob_table();
     let c = any_criterion(1, 2, 0);
-    let topic = any_str();
+    register(&c.topics);
+    register(&c.partitions);
+    let topic = any_name();
     let parts: Vec<&str> = any_vec(0, 2, any_str);
-    let tags: Vec<(&str, &str)> = Vec::new();
+    let tags: [(&str, &str); 0] = [];
     kani::assume(parts.is_empty() || c.partitions.is_empty());
     let got = c.is_applicable(topic, parts.iter(), tags.iter());
     assert!(got == o_criterion(&c, topic, &parts, &tags));
+    core::mem::forget((c, parts));
+  }
+
+  // ---- c18.rule: bounded ---------------------------------------------------------------------------
+  // <= 2 domain entries, <= 2 criteria per action kind (1 topic expression, <= 1 partition
+  // expression each), entity with <= 1 partition
+  #[kani::proof]
+  #[kani::stub(glob::Pattern::matches, glob_stub)]
+  #[kani::unwind(4)]
+  fn c18_rule_applicable() {
+    any_glob_table();
+    let r = any_rule(2, 2, 1);
+    register_rule(&r);
+    let (a, dom, topic) = (any_action(), kani::any::<u16>(), any_name());
+    let parts: Vec<&str> = any_vec(0, 1, any_str);
+    let tags: [(&str, &str); 0] = [];
+    let got = r.is_applicable(a, dom, topic, &parts, &tags);
+    assert!(got == o_rule(&r, a, dom, topic, &parts, &tags));
+    core::mem::forget((r, parts));
+  }
+
+  // ---- c18.first_rule: bounded -------------------------------------------------------------------
+  // <= 3 rules x <= 2 criteria per action kind, 1 domain entry per rule, 1 topic expression per
+  // criterion, no partitions
+  #[kani::proof]
+  #[kani::stub(glob::Pattern::matches, glob_stub)]
+  #[kani::unwind(5)]
+  fn c18_first_rule() {
+    any_glob_table();
+    let g = Grant {
+      subject_name: DistinguishedName::from(x509_cert::name::Name::default()),
+      validity: chrono::DateTime::<Utc>::MIN_UTC..chrono::DateTime::<Utc>::MAX_UTC,
+      rules: any_vec(0, 3, || any_rule(1, 2, 0)),
+      default_action: any_verdict(),
+    };
+    let mut k = 0;
+    while k < g.rules.len() { register_rule(&g.rules[k]); k += 1; }
+    let (a, dom, topic) = (any_action(), kani::any::<u16>(), any_name());
+    let parts: [&str; 0] = [];
+    let tags: [(&str, &str); 0] = [];
+    let got = g.check_action(a, dom, topic, &parts, &tags);
+    assert!(allow(got) == o_check_action(&g, a, dom, topic, &parts, &tags));
+    core::mem::forget(g);
+  }
+
+  // ---- c18.find_grant: bounded -----------------------------------------------------------------
+  // structurally distinct subject names without running the X.509 name parser: k empty RDNs
+  pub fn dn(k: u8) -> DistinguishedName {
+    let rdn = x509_cert::name::RelativeDistinguishedName::default();
+    DistinguishedName::from(x509_cert::name::RdnSequence(match k {
+      0 => Vec::new(),
+      1 => vec![rdn],
+      _ => vec![rdn.clone(), rdn],
+    }))
+  }
+  type Instant = (i64, u32); // seconds since the epoch, nanoseconds
+  fn any_instant() -> (Instant, chrono::DateTime<Utc>) {
+    let s: i64 = kani::any();
+    let ns: u32 = kani::any();
+    kani::assume(0 <= s && s < (1i64 << 32) && ns < 1_000_000_000);
+    ((s, ns), chrono::DateTime::<Utc>::from_timestamp(s, ns).unwrap())
+  }
+  // "the subject's currently valid grant": the first grant whose subject is the participant's and
+  // whose validity [not_before, not_after) contains the current time; <= 3 grants
+  #[kani::proof]
+  #[kani::unwind(5)]
+  fn c18_find_grant() {
+    let subj_k: u8 = kani::any::<u8>() % 3;
+    let subject = dn(subj_k);
+    let (now_i, now) = any_instant();
+    let n: usize = kani::any();
+    kani::assume(n <= 3);
+    let mut ks = [0u8; 3];
+    let mut nb = [(0i64, 0u32); 3];
+    let mut na = [(0i64, 0u32); 3];
+    let mut grants: Vec<Grant> = Vec::with_capacity(3);
+    let mut i = 0;
+    while i < 3 {
+      if i < n {
+        ks[i] = kani::any::<u8>() % 3;
+        let (b_i, b) = any_instant();
+        let (a_i, a) = any_instant();
+        nb[i] = b_i;
+        na[i] = a_i;
+        grants.push(Grant { subject_name: dn(ks[i]), validity: b..a, rules: Vec::new(), default_action: any_verdict() });
+      }
+      i += 1;
+    }
+    let perms = DomainParticipantPermissions { grants, original_string: String::new() };
+    let got = perms.find_grant(&subject, &now);
+    let mut want: Option<usize> = None;
+    let mut i = n;
+    while i > 0 {
+      i -= 1;
+      if ks[i] == subj_k && nb[i] <= now_i && now_i < na[i] { want = Some(i); }
+    }
+    match (got, want) {
+      (None, None) => {}
+      (Some(g), Some(i)) => assert!(core::ptr::eq(g, &perms.grants[i])),
+      _ => assert!(false, "find_grant: presence differs from the oracle"),
+    }
+    core::mem::forget((perms, subject));
   }
 }
